@@ -322,7 +322,41 @@ def gen_C16(ctx):
 GENS = {"C01": gen_C01, "C02": gen_C02, "C03": gen_C03, "C04": gen_C04, "C06": gen_C06, "C10": gen_C10, "C13": gen_C13, "C08": gen_C08, "C09": gen_C09, "C05": gen_C05, "C07": gen_C07, "C11": gen_C11, "C12": gen_C12,
         "C14": gen_C14, "C15": gen_C15, "C18": gen_C18, "C19": gen_C19, "C16": gen_C16}
 
-CONFIGS = {"C16": ["serde"]}
+def gen_C17(ctx):
+    """one deterministic stream answered by every feature configuration"""
+    shapes = ["S", "M", "P"]
+    out = st_conformance(shapes)
+    out += st_tokens(ctx, shapes, 2 if ctx.tier == "quick" else 3, TOKENS_Q, prefix="pkg:t/")
+    out += st_spellings(ctx, ctx.n(3000, 300000), shapes, "c17-spell", group=1)
+    out += st_malformed(ctx, ctx.n(3000, 300000), shapes, "c17-mal")
+    out += st_builder(ctx, ctx.n(3000, 300000), ["S", "P", "CB", "CO", "M"], "c17-build")
+    out += st_quals(ctx, ctx.n(1500, 100000), "c17-quals")
+    out += st_cksum(ctx, ctx.n(1000, 100000), "c17-cksum")
+    out += st_ptype_exhaustive()[:400]
+    return out
+
+
+def cross_C17(ctx, cases, impl_by_cfg):
+    """identical answers in every configuration that has the API (NA = API absent in that build)"""
+    v = []
+    cfgs = list(impl_by_cfg)
+    for i, c in enumerate(cases):
+        seen = {}
+        for cfg in cfgs:
+            a = impl_by_cfg[cfg][i]
+            if a == "NA":
+                continue
+            seen.setdefault(a, []).append(cfg)
+        if len(seen) > 1:
+            items = sorted(seen.items(), key=lambda kv: -len(kv[1]))
+            v.append((i, "configurations disagree: %s answer %s, %s answer %s" % (items[0][1], items[0][0][:150], items[1][1], items[1][0][:150]), items[1][1][0]))
+    return v
+
+
+GENS["C17"] = gen_C17
+CONFIGS = {"C16": ["serde"], "C17": ["default", "package-type", "none", "serde"]}
+CROSS = {"C17": cross_C17}
+
 
 ORACLES = {
     "C01": [O.oracle_C01],
@@ -344,3 +378,5 @@ ORACLES = {
     "C18": [O.oracle_C18],
     "C19": [O.oracle_C19],
 }
+
+ORACLES["C17"] = [O.oracle_C04]
